@@ -1,0 +1,1 @@
+//! Verification hooks: exec (cfg `rten_verif`).
